@@ -26,6 +26,14 @@ impl<'a> Iterator for Ipv6ExtensionSliceIter<'a> {
         use ip_number::*;
         use Ipv6ExtensionSlice::*;
 
+        // All validated extension headers have been returned. This check
+        // is needed as the last header of a lax parsed slice can refer to a
+        // further extension header that is not part of the validated slice
+        // (e.g. when the parsing was stopped by an error).
+        if self.rest.is_empty() {
+            return None;
+        }
+
         match self.next_header {
             // Note on the unsafe calls:
             //
